@@ -73,6 +73,11 @@ structure LGraph where
 structure Cfg where
   onDemand : Bool := false
   skipBoundLabels : Bool := false
+  /-- NOT in the current code: the repair proposed in /verif/fixes/C03_closure_trace_mismatch.patch
+  (use the closure on top of ClosureTrace only if it is a closure of the free variable's function).
+  `false` models the code as it is; the flag exists so that the theorems show what the repair
+  restores and so that the check keeps working once the repair is applied. -/
+  closureCheck : Bool := false
   deriving Repr, Inhabited
 
 def LGraph.node (G : LGraph) (i : Nat) : Node := G.nodes.getD i default
@@ -274,21 +279,26 @@ def expandBoundVar (G : LGraph) (cur : VNode) : Expand :=
   | some (some fv) => { cands := inCands G cur ++ [{ mk cur fv with ctrace := nd.parent :: cur.ctrace }] }
   | _ => { cands := inCands G cur, panics := true }
 
-def expandFreeVar (G : LGraph) (cur : VNode) : Expand :=
+/-- the "no calling context" branch of the FreeVarNode case: every MakeClosure site of the function -/
+def fvNoCtx (G : LGraph) (cur : VNode) : Expand :=
+  let nd := G.node cur.node
+  let cl := (G.ginfo nd.graph).refClosures
+  { cands := cl.filterMap fun c => ((G.node c).bvs[nd.index]?).map fun bv => { mk cur bv with ctrace := [] },
+    baseIfStuck := true,
+    panics := cl.isEmpty || cl.any fun c => ((G.node c).bvs[nd.index]?).isNone }
+
+def expandFreeVar (G : LGraph) (cfg : Cfg) (cur : VNode) : Expand :=
   let nd := G.node cur.node
   if prevGraph G cur != some nd.graph then { cands := inCands G cur, baseIfStuck := true }
   else match cur.ctrace with
     | c :: rest =>
-      match (G.node c).bvs[nd.index]? with
+      if cfg.closureCheck && (G.node c).closGraph != some nd.graph then fvNoCtx G cur
+      else match (G.node c).bvs[nd.index]? with
       | some bv =>
         { cands := [{ node := bv, trace := [], ctrace := rest, skind := 1 }], baseIfStuck := true,
           incoherent := (G.node c).closGraph != some nd.graph }
       | none => { baseIfStuck := true, panics := true }
-    | [] =>
-      let cl := (G.ginfo nd.graph).refClosures
-      { cands := cl.filterMap fun c => ((G.node c).bvs[nd.index]?).map fun bv => { mk cur bv with ctrace := [] },
-        baseIfStuck := true,
-        panics := cl.isEmpty || cl.any fun c => ((G.node c).bvs[nd.index]?).isNone }
+    | [] => fvNoCtx G cur
 
 def expand (G : LGraph) (cfg : Cfg) (pei : List (Nat × Int)) (cur : VNode) : Expand :=
   match G.kind cur.node with
@@ -300,7 +310,7 @@ def expand (G : LGraph) (cfg : Cfg) (pei : List (Nat × Int)) (cur : VNode) : Ex
   | .gwrite => { cands := inCands G cur }
   | .gread => { cands := (G.node cur.node).writes.map fun w => { mk cur w with trace := [] } }
   | .boundVar => expandBoundVar G cur
-  | .freeVar => expandFreeVar G cur
+  | .freeVar => expandFreeVar G cfg cur
   | .closure => { cands := (G.node cur.node).bvs.map (mk cur) }
   | .boundLabel => if cfg.skipBoundLabels then {} else { cands := inCands G cur }
   | .ifn => { panics := true }
